@@ -51,6 +51,8 @@ type refCtx struct {
 
 	// open behaviours met during this evaluation
 	multiObj   bool   // a multi-member object was iterated (member order open)
+	keyPerm    int    // which permutation of the sorted keys a wildcard follows (0 = sorted)
+	maxObj     int    // the largest object a wildcard iterated
 	inexactDiv bool   // an integer quotient was inexact (truncated vs exact both admissible)
 	declined   string // non-empty: the reference declines to predict this case
 	kvSeq      int
@@ -729,6 +731,38 @@ func sortedKeys(m map[string]any) []string {
 	return keys
 }
 
+// memberKeys: the order in which a wildcard visits the members of an object. Go map order is open, so
+// the order is a parameter of the reference: permutation number c.keyPerm of the sorted keys (0 = sorted).
+func (c *refCtx) memberKeys(m map[string]any) []string {
+	keys := sortedKeys(m)
+	if len(keys) > c.maxObj {
+		c.maxObj = len(keys)
+	}
+	if c.keyPerm == 0 || len(keys) < 2 {
+		return keys
+	}
+	// Lehmer decoding of keyPerm modulo n!
+	n := len(keys)
+	fact := 1
+	for i := 2; i <= n && fact < 1<<20; i++ {
+		fact *= i
+	}
+	p := c.keyPerm % fact
+	rest := append([]string{}, keys...)
+	out := make([]string, 0, n)
+	for i := n; i >= 1; i-- {
+		f := 1
+		for j := 2; j < i; j++ {
+			f *= j
+		}
+		idx := (p / f) % i
+		p %= f
+		out = append(out, rest[idx])
+		rest = append(rest[:idx], rest[idx+1:]...)
+	}
+	return out
+}
+
 func (c *refCtx) structural(msg string) *refErr {
 	if c.ignoreSE {
 		return nil
@@ -766,7 +800,7 @@ func (c *refCtx) step(s *Expr, v any, unwrap bool, k emitFn) *refErr {
 			if len(x) >= 2 {
 				c.multiObj = true
 			}
-			for _, key := range sortedKeys(x) {
+			for _, key := range c.memberKeys(x) {
 				if err := c.afterWildcard(x[key], k); err != nil {
 					return err
 				}
@@ -936,7 +970,7 @@ func (c *refCtx) anyStep(s *Expr, v any, k emitFn) *refErr {
 			if len(x) >= 2 {
 				c.multiObj = true
 			}
-			for _, key := range sortedKeys(x) {
+			for _, key := range c.memberKeys(x) {
 				children = append(children, x[key])
 			}
 		case []any:
@@ -972,6 +1006,7 @@ type refOut struct {
 	declined string
 	multiObj bool
 	inexact  bool
+	maxObj   int
 }
 
 func (o refOut) class() string {
@@ -996,7 +1031,7 @@ func refQuery(p Path, c *refCtx) refOut {
 	if items == nil {
 		items = []any{}
 	}
-	return refOut{items: items, err: err, declined: c.declined, multiObj: c.multiObj, inexact: c.inexactDiv}
+	return refOut{items: items, err: err, declined: c.declined, multiObj: c.multiObj, inexact: c.inexactDiv, maxObj: c.maxObj}
 }
 
 // refExists: the reference outcome of Exists. class: ok | soft | hard | null.
